@@ -139,6 +139,8 @@ pub fn full(game: &Game) -> Map<String, Value> {
     m.insert("fifty".into(), json!(game.is_stalemate_by_fifty_move_rule()));
     m.insert("insuf".into(), json!(game.is_stalemate_by_insufficient_material()));
     m.insert("fen".into(), json!(game.to_fen()));
+    // the position without its counters (placement, side, rights, en-passant target), as text
+    m.insert("fid".into(), json!(game.to_fen().split(' ').take(4).collect::<Vec<_>>().join(" ")));
     let ev = std::panic::catch_unwind(std::panic::AssertUnwindSafe(|| eval::eval(game).0));
     m.insert("evp".into(), json!(ev.is_err()));
     m.insert("ev".into(), json!(ev.unwrap_or(0)));
